@@ -119,16 +119,20 @@ Section ValueInd.
     end.
 End ValueInd.
 
+(* [nn]: whether a nil list / map is written as null (Model/JsonEncode.v nil_null) *)
+Section WithNil.
+Variable nn : bool.
+
 (* the loops of json_encode / jv_of_value, named *)
 Fixpoint enc_items (l : list value) : outcome (list bstr) :=
   match l with
   | [] => Ok []
-  | x :: r => s <- json_encode x ;; rs <- enc_items r ;; Ok (s :: rs)
+  | x :: r => s <- json_encode nn x ;; rs <- enc_items r ;; Ok (s :: rs)
   end.
 Fixpoint enc_members (m : list (bstr * value)) : outcome (list (bstr * bstr)) :=
   match m with
   | [] => Ok []
-  | (k, x) :: r => s <- json_encode x ;; rs <- enc_members r ;; Ok ((k, s) :: rs)
+  | (k, x) :: r => s <- json_encode nn x ;; rs <- enc_members r ;; Ok ((k, s) :: rs)
   end.
 Fixpoint jv_items (l : list value) : option (list jvalue) :=
   match l with
@@ -142,11 +146,14 @@ Fixpoint jv_members_of (m : list (bstr * value)) : option (list (bstr * jvalue))
   end.
 
 Lemma json_encode_list id l :
-  json_encode (VList id l) = (items <- enc_items l ;; Ok ([91] ++ join [44] items ++ [93])).
+  json_encode nn (VList id l) =
+  if is_nil_coll nn id l then Ok s_null else (items <- enc_items l ;; Ok ([91] ++ join [44] items ++ [93])).
 Proof. reflexivity. Qed.
 
 Lemma json_encode_map id m :
-  json_encode (VMap id m) = (items <- enc_members m ;; Ok ([123] ++ join [44] (map json_member (sort_kv items)) ++ [125])).
+  json_encode nn (VMap id m) =
+  if is_nil_coll nn id m then Ok s_null else
+  (items <- enc_members m ;; Ok ([123] ++ join [44] (map json_member (sort_kv items)) ++ [125])).
 Proof. reflexivity. Qed.
 
 Lemma jv_of_list id l : jv_of_value (VList id l) = option_map JArr (jv_items l).
@@ -168,25 +175,27 @@ Fixpoint json_ok (v : value) : Prop :=
   match v with
   | VStr s => utf8_valid s = true
   | VFloat x => fl_norm x
-  | VList _ l => (fix all (l : list value) : Prop := match l with [] => True | x :: r => json_ok x /\ all r end) l
-  | VMap _ m =>
-      keys_sorted (map fst m) /\
+  | VList id l =>
+      is_nil_coll nn id l = false /\
+      (fix all (l : list value) : Prop := match l with [] => True | x :: r => json_ok x /\ all r end) l
+  | VMap id m =>
+      is_nil_coll nn id m = false /\ keys_sorted (map fst m) /\
       (fix all (m : list (bstr * value)) : Prop :=
          match m with [] => True | (k, x) :: r => (utf8_valid k = true /\ json_ok x) /\ all r end) m
   | _ => True
   end.
 
-Lemma json_ok_list id l : json_ok (VList id l) <-> Forall json_ok l.
+Lemma json_ok_list id l : json_ok (VList id l) <-> is_nil_coll nn id l = false /\ Forall json_ok l.
 Proof.
-  cbn [json_ok]. induction l as [|x r IH]; [split; constructor|]. split.
+  cbn [json_ok]. apply and_iff_compat_l. induction l as [|x r IH]; [split; constructor|]. split.
   - intros [H1 H2]. constructor; [exact H1|apply IH, H2].
   - intros H. inversion H; subst. split; [assumption|apply IH; assumption].
 Qed.
 
 Lemma json_ok_map id m : json_ok (VMap id m) <->
-  keys_sorted (map fst m) /\ Forall (fun kx => utf8_valid (fst kx) = true /\ json_ok (snd kx)) m.
+  is_nil_coll nn id m = false /\ keys_sorted (map fst m) /\ Forall (fun kx => utf8_valid (fst kx) = true /\ json_ok (snd kx)) m.
 Proof.
-  cbn [json_ok]. apply and_iff_compat_l. induction m as [|[k x] r IH]; [split; constructor|]. split.
+  cbn [json_ok]. apply and_iff_compat_l. apply and_iff_compat_l. induction m as [|[k x] r IH]; [split; constructor|]. split.
   - intros [H1 H2]. constructor; [exact H1|apply IH, H2].
   - intros H. inversion H; subst. split; [assumption|apply IH; assumption].
 Qed.
@@ -246,7 +255,7 @@ Proof.
       destruct (dec_of_Z_head (Z.abs m / 2 ^ (- e))) as (c & r & Eh & Hc). rewrite (app_head _ _ c r Eh). eauto.
 Qed.
 
-Lemma json_encode_head v s : json_encode v = Ok s -> exists c r, s = c :: r /\ vstart c.
+Lemma json_encode_head v s : json_encode nn v = Ok s -> exists c r, s = c :: r /\ vstart c.
 Proof.
   unfold vstart. destruct v as [| |x|z|x|t|id l|id m].
   - intros H; injection H as <-. eexists; eexists; split; [reflexivity|unfold is_digit_byte; lia].
@@ -255,9 +264,13 @@ Proof.
   - intros H; injection H as <-. destruct (dec_of_Z_head z) as (c & r & E & Hc). exists c, r. split; [exact E|tauto].
   - cbn [json_encode]. intros H. destruct (fl_to_string_head x s H) as (c & r & E & Hc). exists c, r. split; [exact E|tauto].
   - intros H; injection H as <-. eexists; eexists; split; [reflexivity|unfold is_digit_byte; lia].
-  - rewrite json_encode_list. intros H. apply bind_ok in H. destruct H as (items & _ & H). injection H as <-.
+  - rewrite json_encode_list. destruct (is_nil_coll nn id l).
+    { intros H; injection H as <-. eexists; eexists; split; [reflexivity|unfold is_digit_byte; lia]. }
+    intros H. apply bind_ok in H. destruct H as (items & _ & H). injection H as <-.
     eexists; eexists; split; [reflexivity|unfold is_digit_byte; lia].
-  - rewrite json_encode_map. intros H. apply bind_ok in H. destruct H as (items & _ & H). injection H as <-.
+  - rewrite json_encode_map. destruct (is_nil_coll nn id m).
+    { intros H; injection H as <-. eexists; eexists; split; [reflexivity|unfold is_digit_byte; lia]. }
+    intros H. apply bind_ok in H. destruct H as (items & _ & H). injection H as <-.
     eexists; eexists; split; [reflexivity|unfold is_digit_byte; lia].
 Qed.
 
@@ -356,7 +369,7 @@ Qed.
 (* ================= the round trip ================= *)
 
 Definition roundtrips (v : value) : Prop :=
-  json_ok v -> forall s, json_encode v = Ok s ->
+  json_ok v -> forall s, json_encode nn v = Ok s ->
   exists j, jv_of_value v = Some j /\
             forall f rest, (vsize v <= f)%nat -> stop_num rest -> jv_parse f (s ++ rest) = Some (j, rest).
 
@@ -417,11 +430,11 @@ Proof.
     change (34 =? 110) with false. change (34 =? 116) with false. change (34 =? 102) with false. change (34 =? 34) with true. cbv iota.
     rewrite <- app_assoc. change ([34] ++ rest) with (34 :: rest). rewrite json_string_at_ok by exact Hok. reflexivity.
   - (* lists *)
-    intros id l IH Hok s H. rewrite json_ok_list in Hok. rewrite json_encode_list in H.
+    intros id l IH Hok s H. rewrite json_ok_list in Hok. destruct Hok as [Hnil Hok]. rewrite json_encode_list, Hnil in H.
     apply bind_ok in H. destruct H as (items & Hitems & H). injection H as <-.
     assert (exists js, jv_items l = Some js /\ length items = length l /\
               forall f, (forall x, In x l -> vsize x <= f)%nat -> Forall2 (parses (jv_parse f)) items js) as (js & Hjs & Hlen & Hpar).
-    { clear id. revert items Hitems. induction l as [|x r IHr]; intros items Hitems.
+    { clear id Hnil. revert items Hitems. induction l as [|x r IHr]; intros items Hitems.
       - injection Hitems as <-. exists []. repeat split; try reflexivity. intros; constructor.
       - cbn [enc_items] in Hitems. apply bind_ok in Hitems. destruct Hitems as (sx & Hsx & Hitems).
         apply bind_ok in Hitems. destruct Hitems as (rs & Hrs & Hitems). injection Hitems as <-.
@@ -453,12 +466,12 @@ Proof.
       * reflexivity.
       * rewrite Hlen. pose proof (sum_ge_len vsize (x0 :: l0) vsize_pos). lia.
   - (* maps *)
-    intros id m IH Hok s H. rewrite json_ok_map in Hok. destruct Hok as [Hsorted Hok]. rewrite json_encode_map in H.
+    intros id m IH Hok s H. rewrite json_ok_map in Hok. destruct Hok as (Hnil & Hsorted & Hok). rewrite json_encode_map, Hnil in H.
     apply bind_ok in H. destruct H as (items & Hitems & H). injection H as <-.
     rewrite sort_kv_sorted by (rewrite (enc_members_keys m items Hitems); exact Hsorted).
     assert (exists js, jv_members_of m = Some js /\ length items = length m /\
               forall f, (forall kx, In kx m -> vsize (snd kx) <= f)%nat -> Forall2 (parses_member (jv_parse f)) items js) as (js & Hjs & Hlen & Hpar).
-    { clear id Hsorted. revert items Hitems. induction m as [|[k x] r IHr]; intros items Hitems.
+    { clear id Hnil Hsorted. revert items Hitems. induction m as [|[k x] r IHr]; intros items Hitems.
       - injection Hitems as <-. exists []. repeat split; try reflexivity. intros; constructor.
       - cbn [enc_members] in Hitems. apply bind_ok in Hitems. destruct Hitems as (sx & Hsx & Hitems).
         apply bind_ok in Hitems. destruct Hitems as (rs & Hrs & Hitems). injection Hitems as <-.
@@ -500,25 +513,29 @@ Proof.
   - change (join sep (s :: s2 :: r2)) with (s ++ sep ++ join sep (s2 :: r2)). rewrite !app_length. lia.
 Qed.
 
-Lemma vsize_le_length : forall v s, json_encode v = Ok s -> (vsize v <= length s)%nat.
+Lemma vsize_le_length : forall v s, json_encode nn v = Ok s -> (vsize v <= length s)%nat.
 Proof.
-  apply (value_ind2 (fun v => forall s, json_encode v = Ok s -> (vsize v <= length s)%nat)).
+  apply (value_ind2 (fun v => forall s, json_encode nn v = Ok s -> (vsize v <= length s)%nat)).
   - intros s H. injection H as <-. cbn. lia.
   - intros s H. injection H as <-. cbn. lia.
   - intros x s H. destruct x; injection H as <-; cbn; lia.
   - intros z s H. destruct (json_encode_head _ _ H) as (c & r & -> & _). cbn [vsize length]. lia.
   - intros x s H. destruct (json_encode_head _ _ H) as (c & r & -> & _). cbn [vsize length]. lia.
   - intros t s H. destruct (json_encode_head _ _ H) as (c & r & -> & _). cbn [vsize length]. lia.
-  - intros id l IH s H. rewrite json_encode_list in H. apply bind_ok in H. destruct H as (items & Hitems & H). injection H as <-.
+  - intros id l IH s H. rewrite json_encode_list in H. destruct (is_nil_coll nn id l) eqn:En.
+    { injection H as <-. unfold is_nil_coll in En. destruct l; [cbn; lia|rewrite andb_false_r in En; discriminate]. }
+    apply bind_ok in H. destruct H as (items & Hitems & H). injection H as <-.
     cbn [vsize app length]. rewrite !app_length. cbn [length].
     pose proof (join_length_ge [44] items) as Hj.
     assert (fold_right (fun x acc => (vsize x + acc)%nat) 0%nat l <= fold_right (fun s acc => (length s + acc)%nat) 0%nat items)%nat; [|lia].
-    clear Hj. revert items Hitems. induction l as [|x r IHr]; intros items Hitems.
+    clear Hj En. revert items Hitems. induction l as [|x r IHr]; intros items Hitems.
     + injection Hitems as <-. cbn. lia.
     + cbn [enc_items] in Hitems. apply bind_ok in Hitems. destruct Hitems as (sx & Hsx & Hitems).
       apply bind_ok in Hitems. destruct Hitems as (rs & Hrs & Hitems). injection Hitems as <-.
       inversion IH as [|? ? IHx IHr']; subst. cbn [fold_right]. specialize (IHx sx Hsx). specialize (IHr IHr' rs Hrs). lia.
-  - intros id m IH s H. rewrite json_encode_map in H. apply bind_ok in H. destruct H as (items & Hitems & H). injection H as <-.
+  - intros id m IH s H. rewrite json_encode_map in H. destruct (is_nil_coll nn id m) eqn:En.
+    { injection H as <-. unfold is_nil_coll in En. destruct m; [cbn; lia|rewrite andb_false_r in En; discriminate]. }
+    apply bind_ok in H. destruct H as (items & Hitems & H). injection H as <-.
     cbn [vsize app length]. rewrite !app_length. cbn [length].
     pose proof (join_length_ge [44] (map json_member (sort_kv items))) as Hj.
     assert (fold_right (fun kx acc => (vsize (snd kx) + acc)%nat) 0%nat m <=
@@ -531,7 +548,7 @@ Proof.
       generalize (fold_right (fun (kx : bstr * bstr) acc => insert_kv (fst kx) (snd kx) acc) [] r). intros acc.
       induction acc as [|[k' x'] acc IHa]; [reflexivity|]. cbn [insert_kv]. destruct (bstr_leb k k'); cbn [map fold_right]; [reflexivity|].
       rewrite IHa. lia. }
-    rewrite Hsum. clear Hsum. revert items Hitems. induction m as [|[k x] r IHr]; intros items Hitems.
+    rewrite Hsum. clear Hsum En. revert items Hitems. induction m as [|[k x] r IHr]; intros items Hitems.
     + injection Hitems as <-. cbn. lia.
     + cbn [enc_members] in Hitems. apply bind_ok in Hitems. destruct Hitems as (sx & Hsx & Hitems).
       apply bind_ok in Hitems. destruct Hitems as (rs & Hrs & Hitems). injection Hitems as <-.
@@ -540,7 +557,7 @@ Proof.
 Qed.
 
 (* ================= the property theorem ================= *)
-Theorem json_roundtrip v s : json_ok v -> json_encode v = Ok s ->
+Theorem json_roundtrip v s : json_ok v -> json_encode nn v = Ok s ->
   exists j, jv_of_value v = Some j /\ json_parse s = Some j.
 Proof.
   intros Hok Hs. destruct (json_roundtrip_at v Hok s Hs) as (j & Hj & Hp). exists j. split; [exact Hj|].
@@ -557,23 +574,25 @@ Fixpoint json_finite (v : value) : Prop :=
   | _ => True
   end.
 
-Theorem json_encode_total : forall v, json_finite v -> exists s, json_encode v = Ok s.
+Theorem json_encode_total : forall v, json_finite v -> exists s, json_encode nn v = Ok s.
 Proof.
-  apply (value_ind2 (fun v => json_finite v -> exists s, json_encode v = Ok s)); try (intros; eexists; reflexivity).
+  apply (value_ind2 (fun v => json_finite v -> exists s, json_encode nn v = Ok s)); try (intros; eexists; reflexivity).
   - intros [|] _; eexists; reflexivity.
   - intros x (s & Hs & H1 & H2 & H3). exists s. cbn [json_encode]. unfold json_float.
     destruct x as [|[|]|n|m e]; try congruence; rewrite Hs; reflexivity.
-  - intros id l IH Hfin. rewrite json_encode_list.
+  - intros id l IH Hfin. rewrite json_encode_list. destruct (is_nil_coll nn id l); [eexists; reflexivity|].
     assert (exists items, enc_items l = Ok items) as (items & ->); [|eexists; reflexivity].
     cbn [json_finite] in Hfin. induction l as [|x r IHr]; [eexists; reflexivity|].
     inversion IH as [|? ? IHx IHr']; subst. destruct Hfin as [Hx Hr].
     destruct (IHx Hx) as (sx & Esx). destruct (IHr IHr' Hr) as (rs & Ers). cbn [enc_items]. rewrite Esx, Ers. eexists; reflexivity.
-  - intros id m IH Hfin. rewrite json_encode_map.
+  - intros id m IH Hfin. rewrite json_encode_map. destruct (is_nil_coll nn id m); [eexists; reflexivity|].
     assert (exists items, enc_members m = Ok items) as (items & ->); [|eexists; reflexivity].
     cbn [json_finite] in Hfin. induction m as [|[k x] r IHr]; [eexists; reflexivity|].
     inversion IH as [|? ? IHx IHr']; subst. destruct Hfin as [Hx Hr]. cbn [snd] in IHx.
     destruct (IHx Hx) as (sx & Esx). destruct (IHr IHr' Hr) as (rs & Ers). cbn [enc_members]. rewrite Esx, Ers. eexists; reflexivity.
 Qed.
+
+End WithNil.
 
 (* the output never contains a raw < > & (escapeHTML), at any depth *)
 Lemma dec_of_N_inert n : Forall html_inert (dec_of_N n).
